@@ -31,17 +31,17 @@ PLANS = {
             "thorough": [seq("pair", 4000000)]},
     "C16": {"quick": [seq("seq-mixed", 240000), seq("seq-expiry", 100000), seq("thr-iter", 100000), seq("thr-mixed", 40000), seq("seq-wide", 4000)],
             "thorough": [seq("seq-mixed", 3000000), seq("seq-expiry", 1000000), seq("thr-iter", 1500000), seq("thr-mixed", 600000), seq("seq-wide", 60000)]},
-    "C02": {"quick": [seq("thr-mixed", 160000), seq("thr-strict", 80000), seq("thr-expiry", 40000)],
-            "thorough": [seq("thr-mixed", 2400000), seq("thr-strict", 1200000), seq("thr-expiry", 600000), seq("thr-iter", 300000)]},
-    "C09": {"quick": [seq("thr-mixed", 100000), seq("thr-iter", 30000), seq("burst", 5000), seq("seq-long", 4000)],
-            "thorough": [seq("thr-mixed", 1500000), seq("thr-iter", 400000), seq("burst", 80000), seq("seq-long", 60000)]},
+    "C02": {"quick": [seq("thr-mixed", 160000), seq("thr-strict", 80000), seq("thr-expiry", 40000), seq("thr-sweep", 57600)],
+            "thorough": [seq("thr-mixed", 2400000), seq("thr-strict", 1200000), seq("thr-expiry", 600000), seq("thr-iter", 300000), seq("thr-sweep", 1152000)]},
+    "C09": {"quick": [seq("thr-mixed", 100000), seq("thr-iter", 30000), seq("burst", 5000), seq("seq-long", 4000), seq("thr-sweep", 19200)],
+            "thorough": [seq("thr-mixed", 1500000), seq("thr-iter", 400000), seq("burst", 80000), seq("seq-long", 60000), seq("thr-sweep", 384000)]},
     "C08": {"quick": [seq("seq-mixed", 200000), seq("seq-long", 4000), seq("seq-callback", 60000), seq("seq-policy", 60000), seq("thr-mixed", 80000), seq("thr-iter", 30000), seq("burst", 2000), seq("seq-wide", 2000)],
             "thorough": [seq("seq-mixed", 2000000), seq("seq-long", 60000), seq("seq-callback", 600000), seq("seq-policy", 600000), seq("thr-mixed", 1200000), seq("thr-iter", 400000), seq("burst", 40000), seq("seq-wide", 30000), seq("seq-mixed", 300000, build="asan", env=ASAN), seq("seq-long", 20000, build="asan", env=ASAN), seq("seq-callback", 100000, build="asan", env=ASAN), seq("thr-mixed", 200000, build="asan", env=ASAN), seq("thr-iter", 60000, build="asan", env=ASAN), seq("burst", 4000, build="asan", env=ASAN), {"kind": "miri", "pop": "thr-mixed", "seed": 7, "from": 0, "to": 24, "miri_seeds": 16}, {"kind": "miri", "pop": "thr-iter", "seed": 7, "from": 0, "to": 8, "miri_seeds": 16}, {"kind": "miri", "pop": "seq-mixed", "seed": 7, "from": 0, "to": 160, "miri_seeds": 1, "jobs": 8}, {"kind": "miri", "pop": "seq-policy", "seed": 7, "from": 0, "to": 96, "miri_seeds": 1, "jobs": 8}, {"kind": "miri", "pop": "seq-callback", "seed": 7, "from": 0, "to": 48, "miri_seeds": 1, "jobs": 8}]},
 }
 
 RULES = {
     "C01": "runs are generated from (VERIF_SEED, population, run index); distinct = hash of (config, op trace, schedule trace); non-trivial = the run contains a lookup of a key that was previously inserted and since then updated, invalidated, evicted or seen before (i.e. not a lookup of a never-written key)",
-    "C02": "threads, programs, config and the scheduling policy are generated from (VERIF_SEED, population, run index); distinct = hash of (config, programs, schedule actually taken); non-trivial = at least two threads operated on one key with overlapping invoke/return intervals and at least one preemption happened inside an operation",
+    "C02": "threads, programs, config and the scheduling policy are generated from (VERIF_SEED, population, run index); distinct = hash of (config, programs, schedule actually taken); non-trivial = at least two threads operated on one key with overlapping invoke/return intervals and at least one preemption happened inside an operation; the thr-sweep population enumerates, for each generated two-thread program, who starts, the step of the first preemption (0..23) and the length of the other thread's turn",
     "C09": "distinct = hash of (config, programs, schedule actually taken); non-trivial = the write channel was found full at least once, or a thread was parked at a switch point inside Inner::sync while another thread executed at least one step, or (seq-long) a single thread issued more un-synced operations than the write queue holds",
     "C03": "distinct = hash of (config, op trace, schedule); non-trivial = a removal cause (expiry, invalidation, rejection/eviction, weight-changing update) occurred before a MUST-SEE lookup, or the run contained an insert judged by the 'fits' rule, or a post-quiescence refill was checked",
     "C04": "distinct = hash of (config, op trace, schedule); non-trivial = resident weight reached max_capacity at a quiescent point at least once, or the write channel was found full",
@@ -60,4 +60,4 @@ RULES = {
 ALL_PROBES = ["admit.victim_skipped", "admit.victim_vanished", "evict.skip_dirty", "evict.skip_missing",
               "write.channel_full", "read.dropped", "hk.lost", "hk.synced", "sync.repeat"]
 
-DETERMINISM_POPS = ["seq-wide", "thr-mixed", "thr-strict", "thr-iter", "thr-expiry", "burst", "seq-mixed", "seq-expiry", "seq-policy", "seq-inval", "seq-callback", "pair", "seq-long"]
+DETERMINISM_POPS = ["thr-sweep", "seq-wide", "thr-mixed", "thr-strict", "thr-iter", "thr-expiry", "burst", "seq-mixed", "seq-expiry", "seq-policy", "seq-inval", "seq-callback", "pair", "seq-long"]
